@@ -242,8 +242,23 @@ ElemUse::isElementSkipped(StylesheetExecutionContext&   executionContext) const
     // An xsl:element with an illegal name creates no element and has not
     // called startElement(), so there is no state for its attribute sets,
     // and there is nothing their attributes could be added to.
-    return getXSLToken() == StylesheetConstructionContext::ELEMNAME_ELEMENT &&
-           executionContext.getSkipElementAttributes() == true;
+    if (getXSLToken() == StylesheetConstructionContext::ELEMNAME_ELEMENT)
+    {
+        return executionContext.getSkipElementAttributes();
+    }
+    else if (getXSLToken() == StylesheetConstructionContext::ELEMNAME_COPY)
+    {
+        // The attribute sets of xsl:copy are only for element nodes.  For
+        // the root node, going on with them after the first child also
+        // instantiated the children once more.
+        assert(executionContext.getCurrentNode() != 0);
+
+        return executionContext.getCurrentNode()->getNodeType() != XalanNode::ELEMENT_NODE;
+    }
+    else
+    {
+        return false;
+    }
 }
 #endif
 
